@@ -1,37 +1,66 @@
 #!/usr/bin/env python3
 """seedmatrix.py [--tier quick] [ids...] : run every kept seeded change against the check of the property it breaks (and record it).
-Applies seeded/<id>/patch.diff to /repo, runs the check, undoes the change. Writes caught_by into meta.json and seeded/MATRIX.md."""
-import json, os, subprocess, sys, glob, re
+
+Works on scratch copies so that it can run next to other work: a git worktree of /repo HEAD and a copy of the committed-or-not
+/verif tree under /tmp (removed at the end). For each seeded/<id>/patch.diff: apply to the scratch worktree, run the check of
+the property (plus the checks named in EXTRA for cross-property detections) with VERIF_REPO pointing at the scratch worktree,
+undo. Writes caught_by into seeded/<id>/meta.json and seeded/MATRIX.md (in /verif)."""
+import glob, json, os, shutil, subprocess, sys
+
 tier = "quick"
 args = [a for a in sys.argv[1:] if not a.startswith("--")]
-if "--tier" in sys.argv: tier = sys.argv[sys.argv.index("--tier") + 1]; args = [a for a in args if a != tier]
+if "--tier" in sys.argv:
+    tier = sys.argv[sys.argv.index("--tier") + 1]
+    args = [a for a in args if a != tier]
 ids = args or sorted(os.path.basename(d) for d in glob.glob("/verif/seeded/C*-*"))
+# changes whose mechanism belongs (also) to another property's check
+EXTRA = {"C02-D": ["C17"], "C14-D": ["C03"], "C08-C": ["C10"], "C08-D": ["C14"], "C04-C": ["C09"], "C07-D": ["C03", "C18"], "C06-D": ["C05"]}
+WT, VC = f"/tmp/sm_repo_{os.getpid()}", f"/tmp/sm_verif_{os.getpid()}"
+
+
+def sh(cmd, **kw):
+    return subprocess.run(cmd, capture_output=True, text=True, **kw)
+
+
+sh(["git", "-C", "/repo", "worktree", "add", "--detach", WT, "HEAD"])
+sh(["rsync", "-a", "--exclude", ".git", "--exclude", "replays", "--exclude", "evidence", "/verif/", VC + "/"])
+os.makedirs(VC + "/evidence", exist_ok=True)
 rows = []
-for sid in ids:
-    d = f"/verif/seeded/{sid}"; meta = json.load(open(f"{d}/meta.json")); prop = meta["property"]
-    st = subprocess.run(["git", "-C", "/repo", "status", "--porcelain"], capture_output=True, text=True).stdout.strip()
-    assert not st, "/repo not clean: " + st
-    ok = False
-    for cmd in (["git", "-C", "/repo", "apply", f"{d}/patch.diff"], ["git", "-C", "/repo", "apply", "-C1", "--recount", f"{d}/patch.diff"], ["patch", "-p1", "--fuzz=3", "--no-backup-if-mismatch", "-d", "/repo", "-i", f"{d}/patch.diff"]):
-        if subprocess.run(cmd, capture_output=True).returncode == 0: ok = True; break
-        subprocess.run(["git", "-C", "/repo", "checkout", "--", "."])
-    if not ok:
-        rows.append((sid, prop, "PATCH DOES NOT APPLY", "")); continue
-    try:
-        r = subprocess.run(["/venv/bin/python", "/verif/vf/run.py", prop, "--tier", tier], capture_output=True, text=True, cwd="/verif")
-        lines = [l for l in r.stdout.splitlines() if "condarc" not in l]
-        viol = [l for l in lines if l.startswith("VIOLATION")]
-        first = next((l.strip() for l in lines if l.startswith("  ->")), "")
-        res = {"tier": tier, "exit": r.returncode, "violation_lines": len(viol), "first_witness": first[:200]}
-    finally:
-        subprocess.run(["git", "-C", "/repo", "checkout", "--", "."])
-        subprocess.run(["git", "-C", "/repo", "clean", "-fdq", "gpytorch"])
-    meta.setdefault("caught_by", {})[prop + ":" + tier] = res
-    meta["ran"] = meta.get("ran", "") if "seedmatrix" in meta.get("ran", "") else meta.get("ran", "") + f"; tools/seedmatrix.py: git apply on /repo, vf/run.py {prop} --tier {tier}, git checkout -- ."
-    json.dump(meta, open(f"{d}/meta.json", "w"), indent=1)
-    rows.append((sid, prop, "CAUGHT" if r.returncode == 1 else f"MISSED (exit {r.returncode})", first[:150]))
-    print(rows[-1], flush=True)
-subprocess.run(["git", "-C", "/verif", "checkout", "--", "evidence"], capture_output=True)
-with open("/verif/seeded/MATRIX.md", "w") as f:
-    f.write(f"# Seeded changes vs the check of the property they break (tier {tier})\n\n| seeded change | property | result | first witness |\n|---|---|---|---|\n")
-    for r in rows: f.write("| " + " | ".join(str(x).replace("|", "/") for x in r) + " |\n")
+try:
+    for sid in ids:
+        d = f"/verif/seeded/{sid}"
+        meta = json.load(open(f"{d}/meta.json"))
+        prop = meta["property"]
+        ok = False
+        for cmd in (["git", "-C", WT, "apply", f"{d}/patch.diff"], ["git", "-C", WT, "apply", "-C1", "--recount", f"{d}/patch.diff"], ["patch", "-p1", "--fuzz=3", "--no-backup-if-mismatch", "-d", WT, "-i", f"{d}/patch.diff"]):
+            if sh(cmd).returncode == 0:
+                ok = True
+                break
+            sh(["git", "-C", WT, "checkout", "--", "."])
+        if not ok:
+            rows.append((sid, prop, "PATCH DOES NOT APPLY", ""))
+            print(rows[-1], flush=True)
+            continue
+        try:
+            for p in [prop] + EXTRA.get(sid, []):
+                r = sh(["/venv/bin/python", VC + "/vf/run.py", p, "--tier", tier], cwd=VC, env=dict(os.environ, VERIF_REPO=WT))
+                lines = [l for l in r.stdout.splitlines() if "condarc" not in l]
+                viol = [l for l in lines if l.startswith("VIOLATION")]
+                first = next((l.strip() for l in lines if l.startswith("  ->")), "")
+                meta.setdefault("caught_by", {})[p + ":" + tier] = {"tier": tier, "exit": r.returncode, "violation_lines": len(viol), "first_witness": first[:200]}
+                rows.append((sid, p, "CAUGHT" if r.returncode == 1 else f"MISSED (exit {r.returncode})", first[:150]))
+                print(rows[-1], flush=True)
+        finally:
+            sh(["git", "-C", WT, "checkout", "--", "."])
+            sh(["git", "-C", WT, "clean", "-fdq", "gpytorch"])
+        if "seedmatrix" not in meta.get("ran", ""):
+            meta["ran"] = meta.get("ran", "") + f"; tools/seedmatrix.py: git apply on a scratch worktree of /repo, vf/run.py <property> --tier {tier} with VERIF_REPO=<worktree>, git checkout -- ."
+        json.dump(meta, open(f"{d}/meta.json", "w"), indent=1)
+finally:
+    sh(["git", "-C", "/repo", "worktree", "remove", "--force", WT])
+    shutil.rmtree(VC, ignore_errors=True)
+if not args:
+    with open("/verif/seeded/MATRIX.md", "w") as f:
+        f.write(f"# Seeded changes vs the check of the property they break (tier {tier})\n\nRows with another property's check are cross-detections (the change's mechanism also belongs to that property).\n\n| seeded change | check | result | first witness |\n|---|---|---|---|\n")
+        for r in rows:
+            f.write("| " + " | ".join(str(x).replace("|", "/") for x in r) + " |\n")
